@@ -1,4 +1,4 @@
-(* Correspondence glue for the identifier core (C01, C02, C03, C14, C20):
+(* Correspondence glue for the identifier core (C01, C02, C03, C12, C14, C20):
    replays a request history on the cache machine, with H := SHA-256, and
    compares with the identifiers the real implementation answered.          *)
 From Coq Require Import ZArith NArith List Bool.
